@@ -184,7 +184,7 @@ def c09(tier, seed):
     exe = build_e1(("serde-compat",))
     _, ver = driver.serde_case_rs()
     r = Result("exploration",
-               "every string over {a,b,B,C,1,_,é,É,ß} of length <= L (quick 6, thorough 7) that syn accepts as an identifier, plus r#<keyword> for every keyword and a few conventional names, x 8 rename rules x {field, variant}: the real Inflection conversion applied to exactly what format_field/format_variant feed it, compared with serde_derive's own RenameRule::apply_to_field/apply_to_variant (its case.rs of the locked version, include!d unmodified); pairs on which serde_derive itself panics are counted as serde-undefined; plus end-to-end derives checking that the name lands in the expansion. distinct = distinct identifiers",
+               "every string over {a,b,B,C,1,_,é,É,ß} of length <= L (quick 6, thorough 7) that syn accepts as an identifier, plus r#<keyword> for every keyword and a few conventional names, x 8 rename rules x {field, variant}: the real Inflection conversion applied to exactly what format_field/format_variant feed it, compared with serde_derive's own RenameRule::apply_to_field/apply_to_variant (its case.rs of the locked version, include!d unmodified); pairs on which serde_derive itself panics are counted as serde-undefined; plus end-to-end derives checking that the name lands in the expansion: 64 rule pairs for precedence, and 4 identifiers x 8 rules x 6 field attributes that take their own naming branch (none, type override, as, inline, optional, optional=nullable) x 7 places the rule can come from (struct rename_all, variant rename_all, rename_all_fields of a plain / tagged enum, an untagged variant of a plain / tagged enum, a variant next to a skipped one). distinct = distinct identifiers",
                "exhaustive enumeration of identifiers x rules against serde_derive's own conversion code, in process")
     m = run_e1(exe, "inflect", tier)
     r.absorb(m)
@@ -197,7 +197,7 @@ def c09(tier, seed):
 
 def c10(tier, seed):
     r = Result("exploration",
-               "10 item templates (struct, enum, tagged enum, adjacent enum, variant, newtype variant, field, variant field, tuple field, newtype payload) x every supported serde key at that position x: (1) #[serde(k)] vs #[ts(k)]; (2) #[ts(k=v1)] + #[serde(k=v2)] in both orders vs #[ts(k=v1)]; (3) 20 unsupported serde entries (bare, valued, nested forms of supported keys) placed before/after/between supported entries, in one list and split over two lists, and pairs of them, vs the list with the unsupported entries deleted; (4) with serde-compat off: any serde list vs none; under the feature sets {serde-compat, serde-compat+no-serde-warnings, none}. Oracle: identical expansion (token string) of the real derive - which implies identical bindings; for `bound`, which only shapes the where clause, the impl bodies are compared. distinct = distinct left-hand items",
+               "11 item templates (struct, enum, tagged enum, enum with tag/content/rename_all, adjacent enum, variant, newtype variant, field, variant field, tuple field, newtype payload) x every supported serde key at that position x: (1) #[serde(k)] vs #[ts(k)]; (2) #[ts(k=v1)] + #[serde(k=v2)] in both orders vs #[ts(k=v1)]; (2b) every ordered pair of supported keys of a position in one list vs split over two lists, in the serde spelling, the ts spelling and mixed; (3) 20 unsupported serde entries (bare, valued, nested forms of supported keys) placed before/after/between supported entries, in one list and split over two lists, and pairs of them, vs the list with the unsupported entries deleted; (4) with serde-compat off: any serde list vs none; under the feature sets {serde-compat, serde-compat+no-serde-warnings, none}. Oracle: identical expansion (token string) of the real derive - which implies identical bindings; for `bound`, which only shapes the where clause, the impl bodies are compared. distinct = distinct left-hand items",
                "exhaustive enumeration of attribute placements, differential comparison of real derive expansions in process")
     for feats in (("serde-compat",), ("no-serde-warnings", "serde-compat"), ()):
         exe = build_e1(feats)
